@@ -504,6 +504,16 @@ class _Rewrite(ast.NodeTransformer):
                 and all(_simple(x) or _cheap(x) or isinstance(x, (ast.BinOp, ast.Compare)) for x in c.elts):
             self.changed += 1
             return c.elts[node.slice.value]
+        # {False: a, True: b}[bool(x)]  is  b if x else a   (a two-way table keyed by a truth value)
+        if isinstance(c, ast.Dict) and len(c.keys) == 2 and all(
+                isinstance(k, ast.Constant) and isinstance(k.value, bool) for k in c.keys) \
+                and c.keys[0].value != c.keys[1].value and isinstance(node.slice, ast.Call) \
+                and isinstance(node.slice.func, ast.Name) and node.slice.func.id == 'bool' and len(node.slice.args) == 1 \
+                and not node.slice.keywords and all(_simple(v) or isinstance(v, ast.Constant) for v in c.values):
+            by = {k.value: v for k, v in zip(c.keys, c.values)}
+            self.changed += 1
+            return ast.fix_missing_locations(ast.copy_location(
+                ast.IfExp(test=node.slice.args[0], body=by[True], orelse=by[False]), node))
         if not REWRITE_COUNTER:
             return node
         if isinstance(c, ast.Name) and self.local[-1].get(c.id, (None,))[0] == 'counter':
